@@ -1,45 +1,33 @@
-(** C02 - f32 results are correctly rounded (nearest, ties to even).
-    FULL STATEMENT (the goal; not yet closed):
-      forall c b i fr e, In c ALL_CONFIGS -> valid_inputb i fr e = true ->
-        parse_float c TABLES BTABLES LIMITS F32 b i fr e = Ok (RN F32 (dec_value i fr e)).
-    PROVED so far (every theorem below is closed by [exact]; proofs in spec/RoundFacts.v,
-    spec/RneBridge.v, proofs/ParseFacts.v, proofs/NoUB.v):
-     - the MEANING of the oracle: RN is Flocq's round-to-nearest-even on the FLT format of the
-       regenerated constants, +infinity from 2^emax on ([RN_spec]); thresholds exactly
-       2^128 - 2^103 and 2^-150 ([overflow_threshold_iff], [underflow_threshold_iff]); never NaN /
-       negative ([RN_range]); an integer-only characterisation ([rne_bits_iff_RN]);
-     - stage 1: [parse_number] returns the first 19 significant digits, the truncation flag and the
-       saturated exact exponent, for every valid input and both build modes ([parse_number_exact]),
-       and the exact value is w*10^q resp. lies in [w,w+1)*10^q ([parse_number_value_bracket]);
-     - END TO END for the fast-path class ([parse_float_fast_correct], no premise beyond the input
-       domain): every valid input with at most 19 significant digits whose Number satisfies
-       [fast_path_applies] is parsed to exactly RN (dec_value ...) in all eight configurations and both
-       build modes; and the complete functional description of the fast path ([try_fast_path_eq]);
-     - END TO END for the non-compact configurations whenever Eisel-Lemire is definite
-       ([parse_float_lemire_definite_correct], from [lemire_sound], props/C11.v) - so with the two
-       theorems around it the end-to-end statement is CLOSED for every valid input (exponent not
-       saturated) that does not reach the big-integer path, in all eight configurations;
-     - END TO END for the compact configurations whenever Bellerophon is definite
-       ([parse_float_compact_definite_correct], from [bellerophon_sound], props/C11.v): valid input,
-       exponent not saturated, fast path not applicable, stage definite => exactly RN (dec_value ..);
-     - the big-integer SLOW PATH (proofs/SlowFacts1*.v, SlowFacts2*.v, TruncFacts*.v; integers only):
-       [parse_mantissa_spec] (the digits re-read as a big integer: first MAX_DIGITS significant digits,
-       + one sticky digit iff a later digit is non-zero; never panics), [truncation_preserves_rounding]
-       (that truncation never changes the correctly rounded result), [positive_digit_comp_correct] /
-       [slow_positive_exact] (exponent >= 0: the result is the correctly rounded exact value, no premise),
-       [negative_digit_comp_correct] (exponent < 0: the result is the correctly rounded value PROVIDED the
-       declined estimate is good enough that the true rounding is b or its successor - the one premise
-       that the extended-precision stage must supply, see props/C11.v);
-     - no unchecked access on any input ([parse_float_float_or_panic]).
-    See props/C11.v (extended-precision stage), props/C12.v (big integers), props/C18.v (final
-    rounding) for the other stages; what is not proved is attacked by the directed search of the
-    check on every run (exact midpoints, closest approaches, fallback witnesses). *)
+(** C02 - f32 results are correctly rounded (nearest, ties to even), in every feature configuration.
+    MAIN THEOREM [C02_parse_float_correct] (proofs/EndToEnd6.v, closed by [exact]):
+      for every shipped configuration c (all eight), f = F32 or F64, every build mode b (release /
+      debug-assertions+overflow-checks), every valid input (ASCII digits, integer part without leading
+      zero) of at most 2^28 digits and EVERY i32 exponent:
+          parse_float c TABLES BTABLES LIMITS f b i fr e = Ok (RN f (dec_value i fr e))
+      where RN is Flocq's round-to-nearest-even on the FLT format of the regenerated constants, +infinity
+      from 2^emax on ([C02_RN_spec]); tables and constants are the ones dumped from the compiled crate.
+      For the four COMPACT configurations (Bellerophon) there is NO further premise
+      ([C02_parse_float_correct_compact]).  For the four non-compact configurations (Eisel-Lemire) one
+      residual premise remains, [deep_ok]: a declined estimate never has a biased exponent below -64
+      (it could only fail if compute_float's all-ones fallback fired on a value below 2^(femin-2);
+      [C02_no_deep_fallback_from_shape] shows it holds whenever the decline is not that fallback;
+      see proofs/DeepFallback*.v for its status).  Without debug assertions the premise is not needed
+      for correctness of the slow path ([slow_correct_q_nodbg]).
+    How it is composed: stage 1 [parse_number_exact] -> fast path [try_fast_path_eq] (Flocq Bmult/Bdiv)
+      -> extended-precision stage [lemire_sound] / [bellerophon_sound] (props/C11.v) -> if declined, the
+      estimate lemmas [lemire_declined_estimate] / [bellerophon_declined_estimate] feed the big-integer
+      path [slow_correct_q] (parse_mantissa, the MAX_DIGITS truncation argument, positive / negative
+      digit comparison, capacity of the 62-limb buffer) -> final rounding (props/C18.v); exponents beyond
+      +-2^29 incl. saturation at the i32 limits: [parse_float_far_small/large/zero].
+    The model is tied to /repo by the correspondence harness on every run (see DESIGN.md 4). *)
 
-From Coq Require Import ZArith QArith List Bool Reals.
+From Coq Require Import ZArith QArith Qabs List Bool Reals Qreals.
 From Coq Require Import Floats.SpecFloat.
 From Flocq Require Import Core.Core.
-From ML Require Import base.RustSem model.Fmt model.FloatOps model.Number model.Parse model.Vec model.Bigint model.Slow model.Bellerophon model.Lemire model.Top spec.Decimal spec.Round spec.RoundFacts spec.DigitsSuffice spec.RneZ
-  gen.Consts gen.Tables gen.BTables gen.PowDump proofs.ParseFacts proofs.Glue proofs.NoUB proofs.FastPathFacts proofs.EndToEnd proofs.BellFacts5 proofs.EndToEnd2 proofs.LemireFacts5 proofs.EndToEnd3 proofs.LimbVal proofs.RoundingFactsZ proofs.NumFacts proofs.TruncFacts proofs.TruncFacts2 proofs.SlowFacts1 proofs.SlowFacts1b proofs.SlowFacts2 proofs.SlowFacts2b proofs.SlowFacts2c.
+From ML Require Import base.RustSem model.Fmt model.Num model.Number model.Parse model.Lemire model.Bellerophon model.Top
+  spec.Decimal spec.Round spec.RoundFacts spec.DigitsSuffice gen.Consts gen.Tables gen.BTables gen.PowDump
+  proofs.ParseFacts proofs.FastPathFacts proofs.EndToEnd proofs.EndToEnd2 proofs.EndToEnd3 proofs.EndToEnd4 proofs.EndToEnd5 proofs.EndToEnd6 proofs.EndToEnd7
+  proofs.LemireFacts6.
 Import ListNotations.
 
 Open Scope Z_scope.
@@ -47,6 +35,57 @@ Open Scope Z_scope.
 Theorem C02_sfmt_ok_F32 :
   sfmt_ok F32 = true.
 Proof. exact sfmt_ok_F32. Qed.
+
+Theorem C02_parse_float_correct :
+  forall (c : config) (f : format) (b : build) (i fr : list Z) (e : Z),
+         In c ALL_CONFIGS ->
+         f = F32 \/ f = F64 ->
+         valid_inputb i fr e = true ->
+         zlen i + zlen fr <= 2 ^ 28 ->
+         (compact c = false -> no_deep_fallback_at f b (parse_spec i fr e)) ->
+         PF c f b i fr e = Ok (RN f (dec_value i fr e)).
+Proof. exact parse_float_correct. Qed.
+
+Theorem C02_parse_float_correct_compact :
+  forall (c : config) (f : format) (b : build) (i fr : list Z) (e : Z),
+         In c ALL_CONFIGS ->
+         compact c = true ->
+         f = F32 \/ f = F64 ->
+         valid_inputb i fr e = true -> bounded_input i fr e -> PF c f b i fr e = Ok (RN f (dec_value i fr e)).
+Proof. exact parse_float_correct_compact. Qed.
+
+Theorem C02_parse_float_correct_noncompact :
+  forall (c : config) (f : format) (b : build) (BT : btables) (i fr : list Z) (e : Z),
+         In c ALL_CONFIGS ->
+         compact c = false ->
+         f = F32 \/ f = F64 ->
+         valid_inputb i fr e = true ->
+         bounded_input i fr e ->
+         no_deep_fallback_at f b (parse_spec i fr e) ->
+         parse_float c TABLES BT LIMITS f b i fr e = Ok (RN f (dec_value i fr e)).
+Proof. exact parse_float_correct_noncompact. Qed.
+
+Theorem C02_no_deep_fallback_from_shape :
+  forall (f : format) (b : build) (n : number),
+         f = F32 \/ f = F64 ->
+         0 <= nmant n < 2 ^ 64 ->
+         (many n = true -> 2 ^ (MANTISSA_SIZE f + 3) <= nmant n /\ nmant n + 1 < 2 ^ 64) ->
+         ~ declined_at f b (nexp n) (nmant n) ->
+         ~ declined_at f b (nexp n) (nmant n + 1) -> no_deep_fallback_at f b n.
+Proof. exact no_deep_fallback_from_shape. Qed.
+
+Theorem C02_C02_f32_correctly_rounded :
+  forall (c : config) (b : build) (i fr : list Z) (e : Z),
+         In c ALL_CONFIGS ->
+         in_domain i fr e -> deep_ok c F32 b i fr e -> PF c F32 b i fr e = Ok (RN F32 (dec_value i fr e)).
+Proof. exact C02_f32_correctly_rounded. Qed.
+
+Theorem C02_result_in_range :
+  forall (c : config) (f : format) (b : build) (i fr : list Z) (e r : Z),
+         In c ALL_CONFIGS ->
+         f = F32 \/ f = F64 ->
+         in_domain i fr e -> deep_ok c f b i fr e -> PF c f b i fr e = Ok r -> 0 <= r <= inf_bits f.
+Proof. exact result_in_range. Qed.
 
 Theorem C02_RN_spec :
   forall f : format,
@@ -56,23 +95,18 @@ Theorem C02_RN_spec :
          let r := round radix2 (FLT_exp (femin f) (prec f)) ZnearestE (Q2R v) in
          if Rlt_bool r (bpow radix2 (emax f))
          then
-          0 <= RN f v < RoundFacts.inf_bits f /\
-          (let s := sf_of_bits f (RN f v) in
+          0 <= RN f v < inf_bits f /\
+          (let s := FloatOps.sf_of_bits f (RN f v) in
            valid_binary (prec f) (emax f) s = true /\
            BinarySingleNaN.is_finite_SF s = true /\
-           BinarySingleNaN.sign_SF s = false /\ bits_of_sf f s = RN f v /\ BinarySingleNaN.SF2R radix2 s = r)
-         else RN f v = RoundFacts.inf_bits f /\ sf_of_bits f (RN f v) = S754_infinity false.
+           BinarySingleNaN.sign_SF s = false /\
+           FloatOps.bits_of_sf f s = RN f v /\ BinarySingleNaN.SF2R radix2 s = r)
+         else RN f v = inf_bits f /\ FloatOps.sf_of_bits f (RN f v) = S754_infinity false.
 Proof. exact RN_spec. Qed.
-
-Theorem C02_RN_range :
-  forall f : format,
-         sfmt_ok f = true -> forall v : Q, (0 <= v)%Q -> 0 <= RN f v <= RoundFacts.inf_bits f.
-Proof. exact RN_range. Qed.
 
 Theorem C02_overflow_threshold_iff :
   forall f : format,
-         sfmt_ok f = true ->
-         forall v : Q, (0 <= v)%Q -> RN f v = RoundFacts.inf_bits f <-> (overflow_thresholdQ f <= v)%Q.
+         sfmt_ok f = true -> forall v : Q, (0 <= v)%Q -> RN f v = inf_bits f <-> (overflow_thresholdQ f <= v)%Q.
 Proof. exact overflow_threshold_iff. Qed.
 
 Theorem C02_underflow_threshold_iff :
@@ -80,46 +114,29 @@ Theorem C02_underflow_threshold_iff :
          sfmt_ok f = true -> forall v : Q, (0 <= v)%Q -> RN f v = 0 <-> (v <= underflow_thresholdQ f)%Q.
 Proof. exact underflow_threshold_iff. Qed.
 
-Theorem C02_RN_Qeq :
-  forall f : format, sfmt_ok f = true -> forall v v' : Q, (0 <= v)%Q -> v == v' -> RN f v = RN f v'.
-Proof. exact RN_Qeq. Qed.
+Theorem C02_parse_float_far_small :
+  forall (c : config) (f : format) (b : build) (i fr : list Z) (e : Z),
+         In c ALL_CONFIGS ->
+         f = F32 \/ f = F64 ->
+         valid_inputb i fr e = true ->
+         e - zlen fr + (zlen i + zlen fr) < -400 -> PF c f b i fr e = Ok (RN f (dec_value i fr e)).
+Proof. exact parse_float_far_small. Qed.
 
-Theorem C02_RN_monotone :
-  forall f : format, sfmt_ok f = true -> forall v v' : Q, (0 <= v)%Q -> (v <= v')%Q -> RN f v <= RN f v'.
-Proof. exact RN_monotone. Qed.
+Theorem C02_parse_float_far_large :
+  forall (c : config) (f : format) (b : build) (i fr : list Z) (e : Z),
+         In c ALL_CONFIGS ->
+         f = F32 \/ f = F64 ->
+         valid_inputb i fr e = true ->
+         0 < digits_to_Z (i ++ fr) -> 400 < e - zlen fr -> PF c f b i fr e = Ok (RN f (dec_value i fr e)).
+Proof. exact parse_float_far_large. Qed.
 
-Theorem C02_parse_number_exact :
-  forall (b : build) (i f : list Z) (e : Z),
-         valid_inputb i f e = true -> parse_number b i f e = Ok (parse_spec i f e).
-Proof. exact parse_number_exact. Qed.
-
-Theorem C02_parse_number_value_bracket :
-  forall (b : build) (i f : list Z) (e : Z) (n : number),
-         valid_inputb i f e = true ->
-         parse_number b i f e = Ok n ->
-         let X := e - zlen f in
-         (many n = false -> dec_value i f e == inject_Z (nmant n) * pow10Q X /\ nexp n = clamp_i32 X) /\
-         (many n = true ->
-          exists k : Z,
-            1 <= k /\
-            k = zlen (strip0 (i ++ f)) - 19 /\
-            nexp n = clamp_i32 (X + k) /\
-            (inject_Z (nmant n) * pow10Q (X + k) <= dec_value i f e < inject_Z (nmant n + 1) * pow10Q (X + k))%Q).
-Proof. exact parse_number_value_bracket. Qed.
-
-Theorem C02_try_fast_path_eq :
-  forall (c : config) (T : tables) (f : format) (b : build),
-         fast_ok c T f = true ->
-         forall n : number,
-         0 <= nmant n < 2 ^ 64 ->
-         - 2 ^ 31 <= nexp n < 2 ^ 31 ->
-         try_fast_path c T f b n =
-         Ok (if fast_path_applies f n then Some (RN f (inject_Z (nmant n) * pow10Q (nexp n))) else None).
-Proof. exact try_fast_path_eq. Qed.
-
-Theorem C02_fast_ok_all :
-  forallb (fun c : config => fast_ok c TABLES F32 && fast_ok c TABLES F64) ALL_CONFIGS = true.
-Proof. exact fast_ok_all. Qed.
+Theorem C02_parse_float_far_zero :
+  forall (c : config) (f : format) (b : build) (i fr : list Z) (e : Z),
+         In c ALL_CONFIGS ->
+         f = F32 \/ f = F64 ->
+         valid_inputb i fr e = true ->
+         digits_to_Z (i ++ fr) = 0 -> 400 < e - zlen fr -> PF c f b i fr e = Ok (RN f (dec_value i fr e)).
+Proof. exact parse_float_far_zero. Qed.
 
 Theorem C02_parse_float_fast_correct :
   forall (c : config) (f : format) (b : build) (BT : btables) (L : limits) (i fr : list Z) (e : Z),
@@ -130,25 +147,9 @@ Theorem C02_parse_float_fast_correct :
          parse_float c TABLES BT L f b i fr e = Ok (RN f (dec_value i fr e)).
 Proof. exact parse_float_fast_correct. Qed.
 
-Theorem C02_lemire_sound :
-  forall (f : format) (b : build) (n : number),
-         LemireFacts0.lfmt_ok f = true ->
-         0 <= nmant n < 2 ^ 64 ->
-         (many n = true -> 0 < nmant n /\ nmant n + 1 < 2 ^ 64) ->
-         exists fp : Num.extfloat,
-           lemire TABLES f b n = Ok fp /\
-           (0 <= Num.exp fp ->
-            compute_float TABLES f b (nexp n) (nmant n) = Ok fp /\
-            LemireFacts1.fields_ok f fp /\
-            rne_bits f (dec_num (nmant n) (nexp n)) (dec_den (nexp n)) (LemireFacts0.pack f fp) /\
-            (many n = true ->
-             compute_float TABLES f b (nexp n) (nmant n + 1) = Ok fp /\
-             rne_bits f (dec_num (nmant n + 1) (nexp n)) (dec_den (nexp n)) (LemireFacts0.pack f fp))).
-Proof. exact lemire_sound. Qed.
-
 Theorem C02_parse_float_lemire_definite_correct :
   forall (c : config) (f : format) (b : build) (BT : btables) (L : limits) (i fr : list Z) 
-           (e : Z) (fp : Num.extfloat),
+           (e : Z) (fp : extfloat),
          In c ALL_CONFIGS ->
          compact c = false ->
          f = F32 \/ f = F64 ->
@@ -156,26 +157,25 @@ Theorem C02_parse_float_lemire_definite_correct :
          unsaturated i fr e ->
          fast_path_applies f (parse_spec i fr e) = false ->
          lemire TABLES f b (parse_spec i fr e) = Ok fp ->
-         0 <= Num.exp fp -> parse_float c TABLES BT L f b i fr e = Ok (RN f (dec_value i fr e)).
+         0 <= exp fp -> parse_float c TABLES BT L f b i fr e = Ok (RN f (dec_value i fr e)).
 Proof. exact parse_float_lemire_definite_correct. Qed.
 
-Theorem C02_bellerophon_sound :
-  forall (f : format) (b : build) (w q : Z) (t : bool),
-         bell_ok f = true ->
-         0 <= w < 2 ^ 64 ->
-         - 2 ^ 31 <= q < 2 ^ 31 ->
-         (t = true -> 2 ^ 40 <= w) ->
-         exists fp : Num.extfloat,
-           bellerophon BTABLES f b {| nexp := q; nmant := w; many := t |} = Ok fp /\
-           (0 <= Num.exp fp ->
-            forall v : Q,
-            (if t
-             then (inject_Z w * pow10Q q <= v < inject_Z (w + 1) * pow10Q q)%Q
-             else v == inject_Z w * pow10Q q) -> RN f v = pack f fp).
-Proof. exact bellerophon_sound. Qed.
+Theorem C02_parse_float_lemire_declined_correct :
+  forall (c : config) (f : format) (b : build) (BT : btables) (i fr : list Z) (e : Z) (fp : extfloat),
+         In c ALL_CONFIGS ->
+         compact c = false ->
+         f = F32 \/ f = F64 ->
+         valid_inputb i fr e = true ->
+         bounded_input i fr e ->
+         fast_path_applies f (parse_spec i fr e) = false ->
+         lemire TABLES f b (parse_spec i fr e) = Ok fp ->
+         exp fp < 0 ->
+         -64 <= exp fp - INVALID_FP f ->
+         parse_float c TABLES BT LIMITS f b i fr e = Ok (RN f (dec_value i fr e)).
+Proof. exact parse_float_lemire_declined_correct. Qed.
 
 Theorem C02_parse_float_compact_definite_correct :
-  forall (c : config) (f : format) (b : build) (L : limits) (i fr : list Z) (e : Z) (fp : Num.extfloat),
+  forall (c : config) (f : format) (b : build) (L : limits) (i fr : list Z) (e : Z) (fp : extfloat),
          In c ALL_CONFIGS ->
          compact c = true ->
          f = F32 \/ f = F64 ->
@@ -183,164 +183,37 @@ Theorem C02_parse_float_compact_definite_correct :
          unsaturated i fr e ->
          fast_path_applies f (parse_spec i fr e) = false ->
          bellerophon BTABLES f b (parse_spec i fr e) = Ok fp ->
-         0 <= Num.exp fp -> parse_float c TABLES BTABLES L f b i fr e = Ok (RN f (dec_value i fr e)).
+         0 <= exp fp -> parse_float c TABLES BTABLES L f b i fr e = Ok (RN f (dec_value i fr e)).
 Proof. exact parse_float_compact_definite_correct. Qed.
 
-Theorem C02_scientific_exponent_spec :
-  forall (b : build) (n : number) (d : Z),
-         ndigits_is (nmant n) d ->
-         nmant n < 2 ^ 64 -> - 2 ^ 31 <= nexp n < 2 ^ 31 - 64 -> scientific_exponent b n = Ok (nexp n + d - 1).
-Proof. exact scientific_exponent_spec. Qed.
-
-Theorem C02_parse_mantissa_spec :
-  forall (c : config) (T : tables) (L : limits) (b : build) (maxd : Z) (i fr : list Z),
-         pm_tables_ok c T = true ->
-         10 ^ (maxd + 1) <= B64 ^ BIGINT_LIMBS L ->
-         0 < maxd ->
-         forallb digitb i = true ->
-         forallb digitb fr = true ->
-         (forall (ch : Z) (r : list Z), i = ch :: r -> ch <> 48) ->
-         let s := strip0 (i ++ fr) in
-         let D := zlen s in
-         let k := Z.to_nat maxd in
-         exists (v : vec) (cnt : Z),
-           parse_mantissa c T L b i fr maxd = Ok (v, cnt) /\
-           vgood c L v /\
-           (D <= maxd -> lval (vl v) = digits_to_Z s /\ cnt = D) /\
-           (maxd < D ->
-            if all0 (skipn k s)
-            then lval (vl v) = digits_to_Z (firstn k s) /\ cnt = maxd
-            else lval (vl v) = digits_to_Z (firstn k s) * 10 + 1 /\ cnt = maxd + 1) /\
-           (s <> [] -> 0 < lval (vl v)) /\ 0 <= lval (vl v) < 10 ^ (maxd + 1) /\ 0 <= cnt <= maxd + 1.
-Proof. exact parse_mantissa_spec. Qed.
-
-Theorem C02_truncation_preserves_rounding :
-  forall f : format,
-         sfmt_ok f = true ->
-         trunc_ok f = true ->
-         forall (s : list Z) (X : Z),
-         forallb digitb s = true ->
-         hd 48 s <> 48 ->
-         MAX_DIGITS f < zlen s ->
-         let n := Z.to_nat (MAX_DIGITS f) in
-         let N0 := digits_to_Z (firstn n s) in
-         let rest := skipn n s in
-         let k := X + zlen s - MAX_DIGITS f in
-         10 ^ (MAX_DIGITS f - 1) <= N0 < 10 ^ MAX_DIGITS f /\
-         (TruncFacts.all0 rest = false -> RN f (decQ (digits_to_Z s) X) = RN f (decQ (N0 * 10 + 1) (k - 1))) /\
-         (TruncFacts.all0 rest = true ->
-          digits_to_Z s = N0 * 10 ^ (zlen s - MAX_DIGITS f) /\
-          decQ (digits_to_Z s) X == decQ N0 k /\ RN f (decQ (digits_to_Z s) X) = RN f (decQ N0 k)).
-Proof. exact truncation_preserves_rounding. Qed.
-
-Theorem C02_positive_digit_comp_correct :
-  forall (c : config) (T : tables) (L : limits) (f : format) (b : build) (bigmant : vec) (exponent : Z),
-         pdc_side c T L f = true ->
-         vgood c L bigmant ->
-         0 < lval (vl bigmant) ->
-         0 <= exponent < 2 ^ 31 ->
-         lval (vl bigmant) * 10 ^ exponent < B64 ^ BIGINT_LIMBS L ->
-         exists (fp : Num.extfloat) (w : Z),
-           positive_digit_comp c T L f b bigmant exponent = Ok fp /\
-           Num.extended_to_float f b fp = Ok w /\ rne_bits f (lval (vl bigmant) * 10 ^ exponent) 1 w.
-Proof. exact positive_digit_comp_correct. Qed.
-
-Theorem C02_slow_positive_exact :
-  forall (c : config) (T : tables) (L : limits) (f : format) (b : build) (fp : Num.extfloat)
-           (i fr : list Z) (e : Z),
-         slow_side c T L f = true ->
-         2 ^ 63 <= Num.mant fp < 2 ^ 64 ->
-         forallb digitb i = true ->
-         forallb digitb fr = true ->
-         (forall (ch : Z) (r : list Z), i = ch :: r -> ch <> 48) ->
-         let s := strip0 (i ++ fr) in
-         let D := zlen s in
-         let X := e - zlen fr in
-         let W := digits_to_Z (i ++ fr) in
-         s <> [] ->
-         0 <= X <= 2 ^ 29 ->
-         zlen i + zlen fr <= 2 ^ 29 ->
-         D <= MAX_DIGITS f \/ all0 (skipn (Z.to_nat (MAX_DIGITS f)) s) = true ->
-         W * 10 ^ X < B64 ^ BIGINT_LIMBS L ->
-         exists (r : Num.extfloat) (w : Z),
-           slow c T L f b (parse_spec i fr e) fp i fr = Ok r /\
-           Num.extended_to_float f b r = Ok w /\ rne_bits f (dec_num W X) (dec_den X) w.
-Proof. exact slow_positive_exact. Qed.
-
-Theorem C02_rne_bits_succ_mid :
-  forall f : format,
-         fmt_ok f = true ->
-         2 <= ewidth f ->
-         forall x n d w : Z,
-         0 <= x < inf_bits f ->
-         0 < n ->
-         0 < d ->
-         rne_bits f n d w ->
-         x <= w <= x + 1 ->
-         let M := dec_mant f x in
-         let e := dec_exp f x - 1 in
-         w = x + 1 <->
-         sc_num n e > (2 * M + 1) * sc_den d e \/ sc_num n e = (2 * M + 1) * sc_den d e /\ Z.odd M = true.
-Proof. exact rne_bits_succ_mid. Qed.
-
-Theorem C02_negative_digit_comp_correct :
-  forall (c : config) (f : format) (b : build) (bigmant : vec) (fp : Num.extfloat) (exponent N : Z),
-         rfmt_ok f = true ->
-         fmt_ok f = true ->
-         limbs_ok (vl bigmant) ->
-         is_normalized (vl bigmant) = true ->
-         lval (vl bigmant) = N ->
-         0 < N ->
-         62 <= vcap bigmant ->
-         (alloc c = false -> vcap bigmant = 62) ->
-         zlen (vl bigmant) <= vcap bigmant ->
-         2 ^ 63 <= Num.mant fp < 2 ^ 64 ->
-         -63 <= Num.exp fp <= 2 ^ 30 ->
-         - 2 ^ 30 <= exponent < 0 ->
-         let bbits := rd_bits f fp in
-         let Mb := dec_mant f bbits in
-         let Eb := dec_exp f bbits in
-         let beta := Eb - 1 - exponent in
-         N * 2 ^ Z.max 0 (- beta) < B64 ^ 62 ->
-         (2 * Mb + 1) * 5 ^ (- exponent) * 2 ^ Z.max 0 beta < B64 ^ 62 ->
-         forall w : Z,
-         rne_bits f N (10 ^ (- exponent)) w ->
-         bbits <= w <= bbits + 1 ->
-         exists r : Num.extfloat,
-           negative_digit_comp c TABLES LIMITS f b bigmant fp exponent = Ok r /\
-           Num.extended_to_float f b r = Ok w.
-Proof. exact negative_digit_comp_correct. Qed.
-
-Theorem C02_parse_float_float_or_panic :
-  forall (c : config) (T : tables) (BT : btables) (L : limits) (f : format) 
-           (b : build) (i fr : list Z) (e : Z),
-         ub_params_ok c T f = true ->
-         (exists v : Z, parse_float c T BT L f b i fr e = Ok v) \/
-         (exists p : panic_kind, parse_float c T BT L f b i fr e = Panic p).
-Proof. exact parse_float_float_or_panic. Qed.
+Theorem C02_parse_float_compact_declined_correct :
+  forall (c : config) (f : format) (b : build) (i fr : list Z) (e : Z) (fp : extfloat),
+         In c ALL_CONFIGS ->
+         compact c = true ->
+         f = F32 \/ f = F64 ->
+         valid_inputb i fr e = true ->
+         bounded_input i fr e ->
+         fast_path_applies f (parse_spec i fr e) = false ->
+         bellerophon BTABLES f b (parse_spec i fr e) = Ok fp ->
+         exp fp < 0 -> PF c f b i fr e = Ok (RN f (dec_value i fr e)).
+Proof. exact parse_float_compact_declined_correct. Qed.
 
 
 Print Assumptions C02_sfmt_ok_F32.
+Print Assumptions C02_parse_float_correct.
+Print Assumptions C02_parse_float_correct_compact.
+Print Assumptions C02_parse_float_correct_noncompact.
+Print Assumptions C02_no_deep_fallback_from_shape.
+Print Assumptions C02_C02_f32_correctly_rounded.
+Print Assumptions C02_result_in_range.
 Print Assumptions C02_RN_spec.
-Print Assumptions C02_RN_range.
 Print Assumptions C02_overflow_threshold_iff.
 Print Assumptions C02_underflow_threshold_iff.
-Print Assumptions C02_RN_Qeq.
-Print Assumptions C02_RN_monotone.
-Print Assumptions C02_parse_number_exact.
-Print Assumptions C02_parse_number_value_bracket.
-Print Assumptions C02_try_fast_path_eq.
-Print Assumptions C02_fast_ok_all.
+Print Assumptions C02_parse_float_far_small.
+Print Assumptions C02_parse_float_far_large.
+Print Assumptions C02_parse_float_far_zero.
 Print Assumptions C02_parse_float_fast_correct.
-Print Assumptions C02_lemire_sound.
 Print Assumptions C02_parse_float_lemire_definite_correct.
-Print Assumptions C02_bellerophon_sound.
+Print Assumptions C02_parse_float_lemire_declined_correct.
 Print Assumptions C02_parse_float_compact_definite_correct.
-Print Assumptions C02_scientific_exponent_spec.
-Print Assumptions C02_parse_mantissa_spec.
-Print Assumptions C02_truncation_preserves_rounding.
-Print Assumptions C02_positive_digit_comp_correct.
-Print Assumptions C02_slow_positive_exact.
-Print Assumptions C02_rne_bits_succ_mid.
-Print Assumptions C02_negative_digit_comp_correct.
-Print Assumptions C02_parse_float_float_or_panic.
+Print Assumptions C02_parse_float_compact_declined_correct.
